@@ -84,6 +84,14 @@ def check_divide(src, table):
     eps = ("x", "val", (("p", "EPSILON"),))
     div = ("app", "Expr::from", (("app", "Function::divide", (l, r)),))
     want = ("x", "Case", (("x", "Or", (("x", "GtEq", (r, eps)), ("x", "LtEq", (r, ("app", "neg", (eps,)))))), div, ("x", "val", (num(0),))))
+    def _from(t):  # `Expr::Function(f)` is what `Expr::from(f)` builds (impl From<Function> for Expr)
+        if isinstance(t, tuple):
+            if len(t) == 3 and t[0] == "app" and t[1] == "Expr::Function" and len(t[2]) == 1:
+                return ("app", "Expr::from", (_from(t[2][0]),))
+            return tuple(_from(x) for x in t)
+        return t
+
+    w = _from(w)
     ok2 = w == want and not it.returns  # an early `return` is another value of divide(l, r): the guarded quotient must be the only one
     desc = {"Function::divide": fmt(v), "Expr::divide": fmt(w)}
     if it.returns:
